@@ -168,13 +168,32 @@ pub fn packets(tier: &str, seed: u64, big: bool) -> Vec<(Packet<'static>, String
             p.additional_records.push(ResourceRecord::new(late, CLASS::IN, 1, rdata::RData::A(rdata::A { address: 2 })));
             v.push((p, "many-suffixes".to_string()));
         }
+        // the largest messages there are: plain serialisation of exactly 65535, 65534 and 65533 bytes (names shared, so the
+        // compressed form is shorter), padded with one opaque record
+        for target in [65535usize, 65534, 65533] {
+            let mut p = Packet::new_reply(target as u16);
+            let host = crate::gen::mk_name(&[b"host".to_vec(), b"example".to_vec(), b"org".to_vec()]);
+            p.questions.push(Question::new(host.clone(), TYPE::A.into(), CLASS::IN.into(), false));
+            for k in 0..6u32 { p.answers.push(ResourceRecord::new(host.clone(), CLASS::IN, 60, rdata::RData::A(rdata::A { address: k }))); }
+            p.name_servers.push(ResourceRecord::new(crate::gen::mk_name(&[b"example".to_vec(), b"org".to_vec()]), CLASS::IN, 60, rdata::RData::NS(rdata::NS(host.clone()))));
+            let pad_owner = crate::gen::mk_name(&[b"pad".to_vec(), b"example".to_vec(), b"org".to_vec()]);
+            let mut probe = p.clone();
+            probe.additional_records.push(ResourceRecord::new(pad_owner.clone(), CLASS::IN, 0, rdata::RData::NULL(10, rdata::NULL::new(&[]).unwrap())));
+            let base = probe.build_bytes_vec().map(|b| b.len()).unwrap_or(0);
+            if base == 0 || base > target { continue; }
+            let blob: Vec<u8> = (0..target - base).map(|i| (i * 31 % 251) as u8).collect();
+            p.additional_records.push(ResourceRecord::new(pad_owner, CLASS::IN, 0, rdata::RData::NULL(10, rdata::NULL::new(&blob).unwrap()).into_owned()));
+            v.push((p, "max-size".to_string()));
+        }
     }
     v
 }
 
 pub fn c02(tier: &str, seed: u64) -> Vec<Case> {
     let mut v = vec![];
-    for (p, tag) in packets(tier, seed, false) {
+    // ... and the size limit itself: messages of exactly 65533..65535 bytes
+    let at_the_limit: Vec<(Packet<'static>, String)> = packets(tier, seed, true).into_iter().filter(|(_, t)| t == "max-size").collect();
+    for (p, tag) in packets(tier, seed, false).into_iter().chain(at_the_limit) {
         let ptxt = text::packet(&p);
         let (out, bytes) = build_out(&p, false);
         let mut c = Case::new(format!("build {}", ptxt), out.clone()).tag(&tag).tag("build");
@@ -564,9 +583,9 @@ pub fn c11(tier: &str, seed: u64) -> Vec<Case> {
     // received messages with names of up to 127 labels and owner names that each extend the previous one (read back
     // from the compressing writer the last one follows up to 126 pointers), given uncompressed and compressed
     for (p, tag) in packets(tier, seed ^ 0x3333, true) {
-        if tag != "many-names" && tag != "many-suffixes" { continue; }
-        if let Ok(b) = p.build_bytes_vec() { if b.len() < 20000 { inputs.push((b, format!("received:{}", tag))); } }
-        if let Ok(b) = p.build_bytes_vec_compressed() { if b.len() < 20000 { inputs.push((b, format!("received:{}", tag))); } }
+        if tag != "many-names" && tag != "many-suffixes" && tag != "max-size" { continue; }
+        if let Ok(b) = p.build_bytes_vec() { if b.len() < 20000 || tag == "max-size" { inputs.push((b, format!("received:{}", tag))); } }
+        if let Ok(b) = p.build_bytes_vec_compressed() { if b.len() < 20000 || tag == "max-size" { inputs.push((b, format!("received:{}", tag))); } }
     }
     // accepted messages beyond 16 KiB in which names first appear past offset 16383 and repeat
     for (k, (p, _)) in boundary_packets(tier).into_iter().enumerate() {
